@@ -1,6 +1,7 @@
 CONSTANTS
  Mode = "judge"
  HistLen = 0
+ LenientRelabel = FALSE
  RestartSets = {}
 INIT RInit
 NEXT RNext
